@@ -4,7 +4,7 @@
    integer rule of _random_from_segments and of the shift / wrap in sample_from_continuum from the CURRENT sampler.py (harness/gen_sampler.py). *)
 From Coq Require Import String List Arith ZArith QArith Qround Bool Lia.
 From PGA Require Import Sampler.Shuffle Sampler.ShuffleProofs Sampler.ShuffleRetry.
-From PGAprops Require Import SamplerGen.
+From PGAprops Require Import SamplerGen ShapesGen.
 Import ListNotations.
 Local Open Scope Q_scope.
 
@@ -113,3 +113,12 @@ Theorem C16_src_shape :
    ("while", "not new_continuum");
    ("for", "range(len(annotators)); continuum.iter_annotator(rnd_annotator)")]%string.
 Proof. reflexivity. Qed.
+
+Fixpoint lookup_src (k : string) (l : list (string * string)) : option string :=
+  match l with [] => None | (a, b) :: r => if String.eqb k a then Some b else lookup_src k r end.
+(* the reference's statistics the sampler reads: mean unit length over all units, the stored bounds, and the fresh continuum a sample starts from *)
+Theorem C16_src_reference_statistics :
+  lookup_src "property avg_length_unit" continuum_src = Some "(self) return sum((unit.segment.duration for _, unit in self)) / self.num_units"%string /\
+  lookup_src "property bounds" continuum_src = Some "(self) return (self.bound_inf, self.bound_sup)"%string /\
+  lookup_src "copy_flush" continuum_src = Some "(self) continuum = Continuum(self.uri); continuum.bound_inf, continuum.bound_sup = (self.bound_inf, self.bound_sup); continuum.best_window_size = self.best_window_size; return continuum"%string.
+Proof. repeat split. Qed.
